@@ -17,7 +17,8 @@ BACKENDS = {1: "-c", 2: "-python", 3: "-python-native"}
 NAMING = {1: "-fnames", 2: "-fptrs", 3: None}
 FLAGS = {"string": "-string", "true_names": "-true-names", "unique_names": "-unique-names", "nodb": "-nodb",
          "do_module": "-do-module", "promiscuous": "-promiscuous", "nomangle": "-nomangle", "assert": "-assert"}
-FEATURES = ["f_keywords", "f_operators", "f_strdefault", "f_macros", "f_nested", "f_enumdefault", "f_stdstring"]
+FEATURES = ["f_keywords", "f_operators", "f_strdefault", "f_macros", "f_nested", "f_enumdefault", "f_stdstring",
+            "f_conversions"]
 PYINC = sysconfig.get_paths()["include"]
 PYLIBDIR = sysconfig.get_config_var("LIBDIR")
 PYVER = "python%d.%d" % sys.version_info[:2]
@@ -194,6 +195,63 @@ def render_library(tag, feats, other=None, collisions=None, overloads=True):
             for nm in grp:
                 L.append("  int %s(int a) { return a; }" % nm)
     L.append("public:\n  int hidden() { return 1; }\n  int _v;\n};")
+    if "f_conversions" in feats:
+        # types that are printed inside wrapper BODIES (casts of conversion operators, temporaries for
+        # by-value parameters and results, default-argument expressions, new T(...)), declared in a
+        # namespace, nested in a class, behind a typedef, as enum and as pointer
+        L.append("""namespace cv%(t)s {
+  struct Meters {
+  PUBLISHED:
+    Meters() : v(0) {}
+    double v;
+  };
+  struct Feet {
+  PUBLISHED:
+    Feet() : v(0) {}
+    double v;
+  };
+  typedef Feet FeetT;
+  enum Kind { k_metric, k_imperial = 4 };
+  namespace detail {
+    class Exact {
+    PUBLISHED:
+      Exact() : num(1), den(1) {}
+      Exact(long n, long d) : num(n), den(d) {}
+      long num;
+      long den;
+    };
+  }
+}
+class Conv%(t)s {
+PUBLISHED:
+  Conv%(t)s() : _n(2) {}
+  struct Raw {
+  PUBLISHED:
+    Raw() : n(0) {}
+    int n;
+  };
+  enum Sign { s_neg = -1, s_zero, s_pos };
+  typedef Raw RawT;
+  operator cv%(t)s::Meters () const { return cv%(t)s::Meters(); }
+  operator cv%(t)s::FeetT () const { return cv%(t)s::Feet(); }
+  operator cv%(t)s::Kind () const { return cv%(t)s::k_imperial; }
+  operator cv%(t)s::detail::Exact () const { return cv%(t)s::detail::Exact(_n, 1); }
+  operator const cv%(t)s::detail::Exact * () const { return &_exact; }
+  operator Raw () const { return _raw; }
+  operator const Raw * () const { return &_raw; }
+  operator Sign () const { return s_pos; }
+  cv%(t)s::Meters scale(cv%(t)s::Meters m, cv%(t)s::Kind k = cv%(t)s::k_imperial) const { m.v *= (int)k; return m; }
+  RawT raw(RawT r = Raw(), Sign s = s_pos) const { r.n += (int)s; return r; }
+  cv%(t)s::detail::Exact exact(const cv%(t)s::detail::Exact &e = cv%(t)s::detail::Exact(1, 3)) const { return e; }
+  static cv%(t)s::detail::Exact *make_exact(long n, long d) { return new cv%(t)s::detail::Exact(n, d); }
+  const cv%(t)s::FeetT &feet() const { return _feet; }
+  cv%(t)s::Kind kind(const cv%(t)s::Kind &k) const { return k; }
+private:
+  int _n;
+  Raw _raw;
+  cv%(t)s::Feet _feet;
+  cv%(t)s::detail::Exact _exact;
+};""" % dict(t=t))
     L.append("class Derived%(t)s : public Base%(t)s {\nPUBLISHED:\n"
              "  Derived%(t)s(int a, double b) : _b(b) { _v = a; }\n"
              "  double getb() const { return _b; }\n"
